@@ -333,6 +333,24 @@ def patPrimOf (tbl : List (String × String × String)) (ty : String) : Option (
   | some r => some (r.2.1, r.2.2)
   | none => (tbl.find? (·.1 == "_")).map fun r => (r.2.1, r.2.2)
 
+/-- `check.rs` `check_pat_int`, `integer_literal_target(ty).unwrap_or(tast::Ty::TInt32)`: the type an unsuffixed integer
+    pattern is validated at — the scrutinee's type when that is already known to be an integer type (`some ty`), and
+    `int32` while it is still a type variable (`none`: operator result, un-annotated let of one, closure parameter,
+    generic call result, `if` result) -/
+def patTarget (known : Option String) : String :=
+  match known with
+  | some ty => ty
+  | none => "TInt32"
+
+/-- an unsuffixed integer pattern end to end: validated at `target` (`check_pat_int`); the constraint
+    `TypeEqual(target, scrutinee)` is pushed unconditionally, so the program is only accepted when the scrutinee's final
+    type IS `target`; the value is then rebuilt at the final type by `tast_builder.rs` (`unwrap_or(0)`, no diagnostics).
+    `some v` = accepted with pattern value `v`. -/
+def patUnsufAccept (ut uf : Bool) (target final : IntTy) (s : List Char) : Option Int :=
+  match checkLit ut target s with
+  | .accept _ => if target = final then some (builderValue uf final s) else none
+  | _ => none
+
 /-- verbs that render a float in a readable decimal form; `%d` on a float prints `%!d(float32=3.5)` -/
 def floatVerbOk (v : String) : Bool := v = "%g" || v = "%v" || v = "%f" || v = "%G" || v = "%F"
 def intVerbOk (v : String) : Bool := v = "%d" || v = "%v"
